@@ -189,16 +189,12 @@ end WindVerif.Pool
 
 namespace WindVerif.Pool
 
-/-! ## liveness side (C02): no deadlock, termination -/
+/-! ## liveness side (C02): no deadlock, termination
 
-/-- the work-queue bound does not block `__exit__`'s stop orders: a plain pool (every listed worker is alive and takes its
-stop order), or unbounded, or at least one slot per worker (true for `None` and for the default `1.0`).  Outside this
-region D19 (a recorded finding) is reachable: workers that retired unreplaced take no stop order. -/
-def ExitCap (cfg : Cfg) : Prop :=
-  cfg.factory = false ∨
-  match cfg.workCap with
-  | none => True
-  | some c => c = 0 ∨ cfg.nWorkers ≤ c
+D19 repaired: the liveness theorems need no hypothesis on the work-queue bound any more (the former `ExitCap`: plain pool,
+or unbounded, or at least one slot per worker).  `__exit__` posts its stop orders with a timeout in a loop and leaves the
+loop when the queue is full and every listed worker has an exit code, so workers that retired unreplaced (which take no
+stop order) cannot block it. -/
 
 /-- well-formed configuration of the property -/
 def WellCfg (cfg : Cfg) : Prop :=
